@@ -439,6 +439,17 @@ def rand_sets(rng, n, centre):
     return P, names
 
 
+def fail_once(ctx, sig, what, replay):
+    """one replay per signature; returns the number of distinct signatures recorded so far"""
+    seen = getattr(ctx, "_c13_sigs", None)
+    if seen is None:
+        seen = ctx._c13_sigs = {}
+    seen[sig] = seen.get(sig, 0) + 1
+    if seen[sig] == 1:
+        ctx.fail(sig, what, replay)
+    return len(seen)
+
+
 def search_convex(ctx):
     from dfols.trust_region import ctrsbox_pgd, ctrsbox_sfista, ctrsbox_geometry
     ncase = ctx.scale(150, 1500) * getattr(ctx, "boost", 1)
@@ -491,9 +502,9 @@ def search_convex(ctx):
             else:
                 sig = "C13:%s-outside-ball" % name
                 what = "%s returned ||d|| = %.17g > Delta (1+1e-8), Delta = %.17g" % (name, dn, Delta)
-            ctx.fail(sig, what, {"kind": "convex", "seed": [ctx.seed, 1302, i], "index": i,
-                                 "input": {"xopt": xopt.tolist(), "g": g.tolist(), "H": H.tolist(), "Delta": Delta, "sets": names}})
-            if len(ctx.failures) >= 5:
+            st["failing_calls"] = st.get("failing_calls", 0) + 1
+            if fail_once(ctx, sig, what, {"kind": "convex", "seed": [ctx.seed, 1302, i], "index": i,
+                                          "input": {"xopt": xopt.tolist(), "g": g.tolist(), "H": H.tolist(), "Delta": Delta, "sets": names}}) >= 6:
                 break
     ctx.cov["search_convex_solvers"] = st
 
@@ -520,17 +531,15 @@ def search_tr_step(ctx):
         if pr != pr:
             st["nan_pred_reduction"] += 1
         elif pr < 0.0:
-            ctx.fail("C13:trust_region_step-negative-predicted-reduction",
-                     "regularised step returned with predicted reduction %.6g < 0" % pr,
-                     {"kind": "trstep", "seed": [ctx.seed, 1303, i], "index": i})
+            fail_once(ctx, "C13:trust_region_step-negative-predicted-reduction",
+                      "regularised step returned with predicted reduction %.6g < 0" % pr,
+                      {"kind": "trstep", "seed": [ctx.seed, 1303, i], "index": i})
         else:
             st["min_pred_reduction"] = min(st["min_pred_reduction"], pr)
             if np.all(d == 0.0):
                 st["zero_step_returned"] += 1
             else:
                 st["positive"] += 1
-        if len(ctx.failures) >= 5:
-            break
     ctx.cov["search_trust_region_step"] = st
 
 
@@ -556,8 +565,8 @@ def search(ctx):
             tags["limited_by_ZERO_THRESH_on_g"] = tags.get("limited_by_ZERO_THRESH_on_g", 0) + 1
             continue
         if res is not None:
-            ctx.fail(res[0], res[1], {"kind": "geom", "case": cj(c)})
-            if len(ctx.failures) >= 5:
+            tags["failing_inputs"] = tags.get("failing_inputs", 0) + 1
+            if fail_once(ctx, res[0], res[1], {"kind": "geom", "case": cj(c)}) >= 6:
                 break
     ctx.cov["search_trsbox_geometry"] = {"inputs": ncase, "grid": tags,
                                          "tolerances": {"box": "1e-12 max(1,|xbase|,|bound|,Delta)", "ball": "Delta(1+1e-8) + 4 eps |xbase|",
